@@ -33,7 +33,7 @@ def width_task(t):
                         "case": {"kind": "width", "n": n, "p": p}}
         viols[k]["count"] += 1
 
-    for w in range(1, 7):
+    for w in range(0, 7):
         for v in range(-2, 2 ** w + 2):
             inr = 0 <= v < 2 ** w
             # ---- value level
@@ -284,7 +284,7 @@ def _dispatch(t):
 def run(ctx):
     p = [REC.BN128, REC.BLS12_381, REC.CURVE25519][ctx.seed % 3]
     tasks = [("w", n, p) for n in (3, 4, 6)]
-    sch = schemas(2 if ctx.thorough else 1)
+    sch = schemas(2)
     if ctx.thorough:
         tasks += [("w", n, q) for n in (3, 5) for q in (REC.BLS12_381, REC.CURVE25519)]
     random.Random(ctx.seed).shuffle(sch)
@@ -312,7 +312,7 @@ def run(ctx):
     ctx.cov["rule"] = ("widths 1..6 x global bitlength 3/4/6 x every value of [-2, 2^w+1]: round trip, acceptance, and (exact "
                        "engine, error checking off) satisfiability / forced result; packing: every schema of the grammar to "
                        "depth %d (%d schemas) x every value of the schema x plain/secret; states = distinct (schema, unpacked "
-                       "value) pairs + search nodes" % (2 if ctx.thorough else 1, len(sch)))
+                       "value) pairs + search nodes" % (2, len(sch)))
     ctx.sample({"width": 5, "bitlength": 3, "value": 31, "expect": "accepted, 5 bits, satisfiable"})
     ctx.sample({"schema": sdesc(sch[0]), "values": svalues(sch[0])[:4]})
 
